@@ -324,3 +324,84 @@ package gldap
 //@   modifies all(ber.Packet), cell(*ber.Packet), G_bufdata, G_pktnew
 //@   tags C01
 //@   safety C02
+
+// ---- request.go helpers (C16) ---------------------------------------------------------
+// X.690 8.1.3 definite lengths: short form (one octet < 128) or long form
+// (0x80|k followed by k octets, 1 <= k <= 8 here).
+//@ pure hdr(w string) int = cond(w[1] < 128, 2, 2 + (w[1] - 128))
+//@ pure wrapOK(w string) bool = len(w) >= 2 && (w[0] == 4 || w[0] == 27) && (w[1] < 128 || (w[1] > 128 && w[1] < 137)) && len(w) >= hdr(w)
+//@ func gldap.readLength
+//@   ensures  err == nil ==> read >= 1 && read <= len(bytes)
+//@   ensures  err == nil && bytes[0] < 128 ==> read == 1
+//@   ensures  err == nil && bytes[0] > 128 ==> read == 1 + (bytes[0] - 128)
+//@   ensures  len(bytes) > 0 && bytes[0] < 128 ==> err == nil
+//@   ensures  len(bytes) > 0 && bytes[0] > 128 && bytes[0] < 137 && len(bytes) >= 1 + (bytes[0] - 128) ==> err == nil
+//@   panics false
+//@   modifies nothing
+//@   tags C16
+//@ func gldap.ConvertString
+//@   ensures  err == nil ==> len(result0) == len(octetString)
+//@   ensures  forall(j, 0, len(octetString), wrapOK(octetString[j])) ==> err == nil
+//@   ensures  err == nil ==> forall(j, 0, len(octetString), wrapOK(octetString[j]) ==> len(result0[j]) == len(octetString[j]) - hdr(octetString[j]) && forall(i, 0, len(result0[j]), result0[j][i] == octetString[j][hdr(octetString[j]) + i]))
+//@   panics false
+//@   modifies nothing
+//@   tags C16
+//@ loop 1
+//@   invariant len(converted) == rangeindex + 1
+//@   invariant forall(j, 0, len(converted), wrapOK(octetString[j]) ==> len(converted[j]) == len(octetString[j]) - hdr(octetString[j]) && forall(i, 0, len(converted[j]), converted[j][i] == octetString[j][hdr(octetString[j]) + i]))
+//@   modifies cell(string)@converted, cell(uint8)@none
+
+// ---- functional options ------------------------------------------------------------------
+// A-USER: an Option value handed to gldap is nil or was produced by one of the
+// package's With* functions; each of those closures is verified against this
+// contract below.
+//@ functype gldap.Option
+//@   params f Option, o interface{}
+//@   panics false
+//@   modifies all(responseOptions), all(controlOptions), all(routeOptions), all(configOptions), all(messageOptions), all(generalOptions)
+//@ func gldap.applyOpts
+//@   inline literal
+//@   panics false
+//@   modifies all(responseOptions), all(controlOptions), all(routeOptions), all(configOptions), all(messageOptions), all(generalOptions)
+//@   tags C16
+
+// Message.GetID: every message kind built by the decoder embeds baseMessage.
+//@ pure msgID(m Message) int64 = cond(typeIs(m, *SearchMessage), m.(*SearchMessage).id, cond(typeIs(m, *SimpleBindMessage), m.(*SimpleBindMessage).id, cond(typeIs(m, *ExtendedOperationMessage), m.(*ExtendedOperationMessage).id,
+//@     cond(typeIs(m, *ModifyMessage), m.(*ModifyMessage).id, cond(typeIs(m, *AddMessage), m.(*AddMessage).id, cond(typeIs(m, *DeleteMessage), m.(*DeleteMessage).id, m.(*UnbindMessage).id))))))
+//@ pure ownMsg(m Message) bool = iref(m) != 0 && (typeIs(m, *SearchMessage) || typeIs(m, *SimpleBindMessage) || typeIs(m, *ExtendedOperationMessage) || typeIs(m, *ModifyMessage) || typeIs(m, *AddMessage) || typeIs(m, *DeleteMessage) || typeIs(m, *UnbindMessage))
+//@ method gldap.Message.GetID
+//@   params m Message
+//@   results id int64
+//@   requires ownMsg(m)
+//@   ensures id == msgID(m)
+//@   panics false
+//@   modifies nothing
+//@   tags C04 C16
+
+// ---- response constructors (C16 totality) -------------------------------------------------
+//@ pure reqOK(r *Request) bool = r != nil && ownMsg(r.message)
+//@ func (*gldap.Request).NewResponse
+//@   requires reqOK(r)
+//@   ensures  result != nil
+//@   panics false
+//@   tags C16
+//@ func (*gldap.Request).NewModifyResponse
+//@   requires reqOK(r)
+//@   ensures  result != nil
+//@   panics false
+//@   tags C16
+//@ func (*gldap.Request).NewExtendedResponse
+//@   requires reqOK(r)
+//@   ensures  result != nil
+//@   panics false
+//@   tags C16
+//@ func (*gldap.Request).NewBindResponse
+//@   requires reqOK(r)
+//@   ensures  result != nil
+//@   panics false
+//@   tags C16
+//@ func (*gldap.Request).NewSearchDoneResponse
+//@   requires reqOK(r)
+//@   ensures  result != nil
+//@   panics false
+//@   tags C16
